@@ -557,6 +557,12 @@ def finding_key(o, failed, expected):
     predicate, other class of literal, other wrong value) gets another key."""
     c = o["c"]
     f = case_features(c)
+    if "NoPanic" in failed:
+        # a panic is named by its site: package and receiver of the first frame outside package ast
+        import re as _re
+        frames = _re.findall(r"graphql-go-tools/(?:v2/pkg|execution)/[\w/]*?(\w+\.(?:\(\*?\w+\)|\w+))[.(]", o.get("panic") or "")
+        site = next((x for x in frames if not x.startswith("ast.")), frames[0] if frames else "unknown")
+        return "NoPanic:%s" % site
     if "number-exp-sign-no-fraction" in f:
         # 1E+3 breaks the token stream itself (two tokens): it explains whatever else is in the case
         return "%s:number-exp-sign-no-fraction" % "+".join(sorted(failed))
@@ -687,9 +693,14 @@ def generate(ctx, quick, rng, gen_stats):
             ren = {tuple(x["name"]): cp(chr(ord("a") + i)) for i, x in enumerate(vs[:26])}
             expr = rename_vars(expr, ren)
             vs = [dict(x, name=ren.get(tuple(x["name"]), x["name"])) for x in vs]
-        yield {"ty": v["ty"], "expr": expr, "vars": vs, "tw": v["tw"], "comp": comp, "stratum": "val", "form": "-", "pos": comp}
+        # fourth context variation: the same request as a FILE UPLOAD (field u_<ty>(a: .., file: $file), one file attached):
+        # the engine sends a multipart request through Source.LoadWithFiles; Denotes(case) does not depend on it
+        up = v["ty"] in UP_TYPES and rng.random() < 0.3
+        yield {"ty": v["ty"], "expr": expr, "vars": vs, "tw": v["tw"], "comp": comp, "up": up, "stratum": "val", "form": "-",
+               "pos": comp + ("+upload" if up else "")}
 
 
+UP_TYPES = {"Int", "String", "ID", "In", "LInt"}
 RENDER = {}
 SCALAR_LISTS = {"LInt", "LStr", "LE", "ALInt"}
 
@@ -863,6 +874,10 @@ def process_batch(ctx, binary, cases, meta, T, rng, batch_no):
     T.validated += len(rows)
     trivial = {"plain", "enum", "null", "omit", "var-val", "variable"}
     for o in obs:
+        if o["c"].get("up") and o["sub"]["ok"] and not o["sub"].get("multi"):
+            raise lib.Inconclusive("upload lane: case %s did not reach the subgraph as a multipart request" % o["id"])
+        if o["c"].get("up") and o["sub"]["ok"]:
+            T.uploads = getattr(T, "uploads", 0) + 1
         T.cases += 1
         T.executions += 2 + (1 if o["hastw"] else 0)      # normalization pass + execution (+ twin execution)
         m = meta[o["id"]]
@@ -937,7 +952,8 @@ def run(ctx):
         BATCH = 60000
         for c in generate(ctx, quick, rng, gen_stats):
             c.setdefault("comp", "none")
-            h = lib.sha([c["ty"], c["expr"], c["vars"], c["tw"], c["comp"]])
+            c.setdefault("up", False)
+            h = lib.sha([c["ty"], c["expr"], c["vars"], c["tw"], c["comp"], c["up"]])
             if h in seen:
                 continue
             seen.add(h)
@@ -998,6 +1014,7 @@ def run(ctx):
         "failing_observations": T.nfail,
         "failure_signatures": {k: v[0] for k, v in T.per_key.items()},
         "renderers": getattr(T, "render", {}),
+        "upload_lane_cases_reaching_subgraph_as_multipart": getattr(T, "uploads", 0),
         "predicates_on_observations": PREDICATES,
         "samples": T.samples,
         "exhaustive": not quick,
